@@ -660,6 +660,13 @@ func execFile(op string, a []sx) sx {
 			mut := append([]byte(nil), data...)
 			mut[pos] ^= 1 << uint(bit)
 			one(mut, int(ma[0].int()), true)
+		case "fill":
+			pos, n, v := int(ma[0].int()), int(ma[1].int()), byte(ma[2].int())
+			mut := append([]byte(nil), data...)
+			for i := pos; i < pos+n && i < len(mut); i++ {
+				mut[i] = v
+			}
+			one(mut, -1, true)
 		case "fliprange":
 			for pos := int(ma[0].int()); pos < int(ma[1].int()); pos++ {
 				for bit := 0; bit < 8; bit++ {
@@ -994,6 +1001,15 @@ func (g *genFile) damageCases(c *ctx) {
 	for _, b := range g.blocks {
 		g.emit(c, T("fliprange", I(int64(b.payEnd)), I(int64(b.end))))
 	}
+	// markers that were never written: zero-filled (a preallocated or sparse file) and 0xFF-filled (erased flash)
+	var fills []sx
+	for _, v := range []int64{0, 255} {
+		fills = append(fills, T("fill", I(int64(g.hdrLen-16)), I(16), I(v)))
+		for _, b := range g.blocks {
+			fills = append(fills, T("fill", I(int64(b.payEnd)), I(16), I(v)))
+		}
+	}
+	g.emit(c, fills...)
 	// a callback failure in a block whose trailing marker is damaged: the callback's error comes first
 	first := 0
 	var both []sx
